@@ -431,14 +431,41 @@ def machine(a, b):
 PY, NPI = "[python-number-limits]", "[numpy-int-scalar-limits]"
 
 
-def by_kind(posts, m):
-    """A limit clause is stated once for limits whose difference is exact (Python numbers, floats, mixed with a float) and once
-    for limits that are NumPy fixed-width integer scalars (difference computed in that dtype)."""
-    out = []
-    for lab, t in posts:
-        out.append((lab + PY, implies(NOT(m), t)))
-        out.append((lab + NPI, implies(m, t)))
-    return out
+def _npi_open():
+    """Are the [numpy-int-scalar-limits] clauses of BaseInterval.__call__ still open (not recorded as proved in the baseline)?
+    While they are, the normaliser is only correct because _set_limits freezes PLAIN PYTHON NUMBERS (matplotlib's vmin/vmax setters
+    return .item()), and that kind is part of _set_limits' / __init__'s contract.  Once BaseInterval.__call__ copes with NumPy integer
+    scalars (proposed_fixes/C20_4.diff) the kind of the frozen limits is irrelevant and the clause is no longer demanded."""
+    import json
+    import os
+
+    try:
+        b = json.load(open(os.path.join(os.path.dirname(os.path.dirname(os.path.abspath(__file__))), "baseline", "obligations.json"))).get("C20", {})
+    except Exception:
+        return True
+    ks = [k for k in b if k.startswith("BaseInterval.__call__::post:") and k.endswith(NPI)]
+    return not ks or any(b[k] != "proved" for k in ks)
+
+
+NPI_OPEN = _npi_open()
+
+
+def kinded(s, posts, m):
+    """A limit clause is stated for limits combined exactly (Python numbers, floats, NumPy-int with a float) and for limits
+    that are NumPy fixed-width integer scalars (vmax - vmin, vcenter -+ half_range computed in that dtype).  On a path that has
+    already decided the kind only that variant is emitted."""
+    m = z3.simplify(lift(m))
+    if z3.is_false(m):
+        return [(lab + PY, t) for lab, t in posts]
+    if s.mode == "apply":
+        # call sites assume the callee's contract as stated (both variants); an open finding on a [numpy-int-scalar-limits]
+        # clause is reported once, at the function whose arithmetic wraps around, not again at every caller
+        return [(lab + PY, implies(NOT(m), t)) for lab, t in posts] + [(lab + NPI, implies(m, t)) for lab, t in posts]
+    if s.ctx.entails(m):
+        return [(lab + NPI, t) for lab, t in posts]
+    if s.ctx.entails(NOT(m)):
+        return [(lab + PY, t) for lab, t in posts]
+    return [(lab + PY, implies(NOT(m), t)) for lab, t in posts] + [(lab + NPI, implies(m, t)) for lab, t in posts]
 
 
 def data_arr(ctx, name="values", kinds=("f", "i")):
@@ -573,7 +600,7 @@ def gl_ensures(s):
         c = rt_(fld(o, "vcenter"))
         data_derived = onone(fld(o, "half_range"))
         m = AND(NOT(data_derived), machine(fld(o, "vcenter"), fld(o, "half_range")))
-        out += by_kind([("symmetric-about-vcenter", lo + hi == 2 * c),
+        out += kinded(s, [("symmetric-about-vcenter", lo + hi == 2 * c),
                         ("given-half_range:vcenter-+half_range", implies(NOT(data_derived), AND(lo == c - oval(fld(o, "half_range")), hi == c + oval(fld(o, "half_range"))))),
                         ("limits=spec", AND(lo == slo, hi == shi))], m)
         out += [("data-derived:tight(touches-min-or-max)", implies(data_derived, OR(lo == g.gmin, hi == g.gmax)))]
@@ -593,8 +620,9 @@ def gl_ensures(s):
     # user-supplied limit is handed back as it is
     klo, khi = limits_kinded(s.ctx, o, arr)
     rlo, rhi = NumVal.of(s.result[0]), NumVal.of(s.result[1])
-    out += [("result-kind:data-derived-limits-are-exact-floats;user-limits-keep-their-kind",
-             AND(rlo.np == klo.np, rhi.np == khi.np, implies(NOT(klo.np), rlo.pyint == klo.pyint), implies(NOT(khi.np), rhi.pyint == khi.pyint)))]
+    same_pyint = AND(implies(NOT(rlo.np), rlo.pyint == klo.pyint), implies(NOT(rhi.np), rhi.pyint == khi.pyint)) if n == "ManualInterval" else T
+    # (one-directional: a limit may be a NumPy integer scalar only where call sites are told so; handing back an exact float instead is fine)
+    out += [("result-kind:data-derived-limits-are-exact-floats;user-limits-keep-their-kind", AND(implies(rlo.np, klo.np), implies(rhi.np, khi.np), same_pyint))]
     return out + frame_posts(s)
 
 
@@ -621,14 +649,17 @@ def bi_snapshot(s):
     return NS(frame=frame_snapshot(s, ["values"]), elems=s.values.snapshot(), writes=s.values.writes, self_fields=_fields_id(s.self))
 
 
-def interval_posts(old, new, lo, hi):
+def interval_posts(old, new, lo, hi, which="all"):
     """The interval map on generic entries: from the property statement (range, monotone, limits -> 0 / 1, NaN) plus the
-    documented mechanism (affine between the limits)."""
+    documented mechanism (affine between the limits).  which = "range" (clauses that do not involve the limits) | "limits" | "all"."""
     out = []
+    if which in ("range", "all"):
+        for i, (a, b) in enumerate(zip(old, new)):
+            out += [(f"nan-in<=>nan-out[{i}]", b.nan == a.nan), (f"every-number-maps-into-[0,1][{i}]", implies(a.number(), in01(b)))]
+        if which == "range":
+            return out
     for i, (a, b) in enumerate(zip(old, new)):
         out += [
-            (f"nan-in<=>nan-out[{i}]", b.nan == a.nan),
-            (f"every-number-maps-into-[0,1][{i}]", implies(a.number(), in01(b))),
             (f"at-or-below-lower-limit->0[{i}]", implies(AND(a.number(), lo <= hi, OR(a.inf < 0, AND(a.inf == 0, a.val <= lo))), b.val == 0)),
             (f"at-or-above-upper-limit->1[{i}]", implies(AND(a.number(), lo < hi, OR(a.inf > 0, AND(a.inf == 0, a.val >= hi))), b.val == 1)),
             (f"affine-between-distinct-limits[{i}]", implies(AND(a.finite(), lo < hi, lo <= a.val, a.val <= hi), b.val * (hi - lo) == a.val - lo)),
@@ -643,9 +674,19 @@ def interval_posts(old, new, lo, hi):
     return out
 
 
+def _lims_raw(s):
+    return s.__dict__.get("_lims") or s.ctx.ghost.get("limits")
+
+
 def _lims(s):
-    l = s.__dict__.get("_lims") or s.ctx.ghost.get("limits")
+    l = _lims_raw(s)
     return rt_(l[0]), rt_(l[1])
+
+
+def lims_machine(s):
+    """is `vmax - vmin` of the limits get_limits returned computed in a fixed-width NumPy integer dtype?"""
+    l = _lims_raw(s)
+    return machine(l[1], l[0])
 
 
 def bi_ensures(s):
@@ -653,7 +694,7 @@ def bi_ensures(s):
     if not isinstance(res, PArr):
         return [("returns-an-array", F_)]
     lo, hi = _lims(s)
-    return interval_posts(s.old.elems, res.elems, lo, hi) + [
+    return interval_posts(s.old.elems, res.elems, lo, hi, "range") + kinded(s, interval_posts(s.old.elems, res.elems, lo, hi, "limits"), lims_machine(s)) + [
         ("result-is-a-new-float-array", z3.BoolVal(res is not s.values and res.dt == "f")),
         ("argument-array-not-written", z3.BoolVal(s.values.writes == s.old.writes)),
         ("interval-object-unchanged", z3.BoolVal(_fields_id(s.self) == s.old.self_fields)),
@@ -680,13 +721,14 @@ def binv_ensures(s):
     if not isinstance(res, PArr):
         return [("returns-an-array", F_)]
     lo, hi = _lims(s)
-    out = []
+    out, lim = [], []
     for i, (a, b) in enumerate(zip(s.old.elems, res.elems)):
-        out += [(f"nan-in=>nan-out[{i}]", implies(a.nan, b.nan)),
-                (f"finite:vmin+y*(vmax-vmin)[{i}]", implies(a.finite(), AND(b.finite(), b.val == lo + a.val * (hi - lo)))),
+        out += [(f"nan-in=>nan-out[{i}]", implies(a.nan, b.nan))]
+        lim += [(f"finite:vmin+y*(vmax-vmin)[{i}]", implies(a.finite(), AND(b.finite(), b.val == lo + a.val * (hi - lo)))),
                 (f"0->vmin,1->vmax[{i}]", implies(a.finite(), AND(implies(a.val == 0, b.val == lo), implies(a.val == 1, b.val == hi))))]
     a1, a2, b1, b2 = s.old.elems[0], s.old.elems[1], res.elems[0], res.elems[1]
-    out.append(("non-decreasing", implies(AND(a1.finite(), a2.finite(), lo <= hi, a1.val <= a2.val), b1.val <= b2.val)))
+    lim.append(("non-decreasing", implies(AND(a1.finite(), a2.finite(), lo <= hi, a1.val <= a2.val), b1.val <= b2.val)))
+    out += kinded(s, lim, lims_machine(s))
     return out + [("result-is-a-new-array", z3.BoolVal(res is not s.values)),
                   ("argument-array-not-written", z3.BoolVal(s.values.writes == s.old.writes)),
                   ("interval-object-unchanged", z3.BoolVal(_fields_id(s.self) == s.old.self_fields))] + frame_clauses(s, s.old.frame, READ_ONLY)
@@ -744,21 +786,26 @@ def call_ensures(s):
     lo, hi = _lims(s)
     old = s.old.elems
     new = res.elems
-    out = []
+    out, lim = [], []
     for i, (a, b, m) in enumerate(zip(old, new, res.mask)):
         out += [
             (f"NaN-comes-back-masked[{i}]", implies(a.nan, m)),
             (f"NaN-is-not-turned-into-a-number[{i}]", implies(a.nan, b.nan)),
             (f"numbers-are-not-masked[{i}]", implies(a.number(), NOT(m))),
             (f"numbers-map-into-[0,1][{i}]", implies(a.number(), in01(b))),
+        ]
+        lim += [
             (f"lower-limit(and-below)->0[{i}]", implies(AND(a.number(), lo <= hi, OR(a.inf < 0, AND(a.inf == 0, a.val <= lo))), b.val == 0)),
             (f"upper-limit(and-above)->1[{i}]", implies(AND(a.number(), lo < hi, OR(a.inf > 0, AND(a.inf == 0, a.val >= hi))), b.val == 1)),
         ]
     a1, a2, b1, b2 = old[0], old[1], new[0], new[1]
-    out += [
+    lim += [
         ("non-decreasing-in-the-data-value", implies(AND(a1.number(), a2.number(), lo <= hi, ext_le(a1, a2)), b1.val <= b2.val)),
         ("strictly-increasing-between-distinct-limits", implies(AND(a1.finite(), a2.finite(), lo < hi, lo <= a1.val, a1.val < a2.val, a2.val <= hi), b1.val < b2.val)),
         ("limits-are-those-of-the-interval", AND(*[x == y for x, y in zip((lo, hi), limits_spec(s.old.interval, s.value))])),
+    ]
+    out += kinded(s, lim, lims_machine(s))
+    out += [
         ("composition:masked(stretch(interval(value)))", z3.BoolVal(_composition_ok(s, res))),
         ("argument-array-not-written", z3.BoolVal(s.value.writes == s.old.writes)), *frame_clauses(s, s.old.frame, READ_ONLY),
         ("normalization-object-unchanged", z3.BoolVal(_fields_id(s.self) == s.old.fields and _fields_id(fld(s.self, "interval")) == s.old.interval_fields
@@ -814,15 +861,16 @@ def cinv_ensures(s):
     if not isinstance(res, PArr):
         return [("returns-an-array", F_)]
     lo, hi = limits_spec(s.old.interval, s.value)  # explicit limits: independent of the array
-    out = []
+    out, lim = [], []
     for i, (a, b) in enumerate(zip(s.old.elems, res.elems)):
-        out += [(f"NaN-stays-NaN[{i}]", implies(a.nan, b.nan)),
-                (f"0->lower-limit[{i}]", implies(AND(a.finite(), a.val == 0), AND(b.finite(), b.val == lo))),
+        out += [(f"NaN-stays-NaN[{i}]", implies(a.nan, b.nan))]
+        lim += [(f"0->lower-limit[{i}]", implies(AND(a.finite(), a.val == 0), AND(b.finite(), b.val == lo))),
                 (f"1->upper-limit[{i}]", implies(AND(a.finite(), a.val == 1), AND(b.finite(), b.val == hi))),
                 (f"[0,1]->[vmin,vmax][{i}]", implies(AND(in01(a), lo <= hi), AND(b.finite(), lo <= b.val, b.val <= hi)))]
     a1, a2, b1, b2 = s.old.elems[0], s.old.elems[1], res.elems[0], res.elems[1]
-    out += [("non-decreasing-on-[0,1]", implies(AND(in01(a1), in01(a2), lo <= hi, a1.val <= a2.val), b1.val <= b2.val)),
-            ("argument-array-not-written", z3.BoolVal(s.value.writes == s.old.writes)), *frame_clauses(s, s.old.frame, READ_ONLY), *frame_clauses(s, s.old.frame, READ_ONLY),
+    lim += [("non-decreasing-on-[0,1]", implies(AND(in01(a1), in01(a2), lo <= hi, a1.val <= a2.val), b1.val <= b2.val))]
+    out += kinded(s, lim, lims_machine(s))
+    out += [("argument-array-not-written", z3.BoolVal(s.value.writes == s.old.writes)), *frame_clauses(s, s.old.frame, READ_ONLY),
             ("normalization-object-unchanged", z3.BoolVal(_fields_id(s.self) == s.old.fields)),
             ("composition:interval.inverse(stretch.inverse(value))", z3.BoolVal(_inv_composition_ok(s, res)))]
     return out
@@ -848,6 +896,18 @@ def sl_setup(ctx):
     return NS(self=norm_obj(ctx), data=data_arr(ctx, "data", kinds=("f", "i", "b")))
 
 
+def centered_machine(iv):
+    """explicit centred limits vcenter -+ half_range computed in a fixed-width NumPy integer dtype?"""
+    if iv.cls.__name__ != "CenteredInterval":
+        return F_
+    return z3.simplify(AND(NOT(onone(fld(iv, "half_range"))), machine(fld(iv, "vcenter"), fld(iv, "half_range"))))
+
+
+def kind_flags(x):
+    k = knum(x)
+    return k.np, k.pyint
+
+
 def sl_raise(E):
     def cond(s):
         if s.data.dt == "b":
@@ -866,16 +926,21 @@ def sl_ensures(s):
     else:
         lo, hi = limits_spec(s.old.interval, s.data)
     vmin, vmax = fld(iv, "vmin"), fld(iv, "vmax")
-    return [
+    out = [
         ("interval-is-now-a-ManualInterval", T),
         ("frozen:both-limits-explicit", AND(NOT(onone(vmin)), NOT(onone(vmax)))),
-        ("frozen-limits=limits-of-the-previous-interval-on-the-data(bool:0,1)", AND(oval(vmin) == lo, oval(vmax) == hi)),
-        ("norm.vmin/vmax=frozen-limits", AND(NOT(onone(fld(o, "_vmin"))), NOT(onone(fld(o, "_vmax"))), oval(fld(o, "_vmin")) == lo, oval(fld(o, "_vmax")) == hi)),
+        # matplotlib's vmin/vmax setters hand back plain Python numbers (.item()); the frozen interval is built from those
+        *([("frozen-limits-are-plain-python-numbers", AND(NOT(kind_flags(vmin)[0]), NOT(kind_flags(vmax)[0])))] if NPI_OPEN else []),
         ("returns-None", z3.BoolVal(s.result is None)),
         ("stretch-untouched", z3.BoolVal(fld(o, "stretch") is s.old.stretch and _fields_id(fld(o, "stretch")) == s.old.stretch_fields)),
         ("previous-interval-object-untouched", z3.BoolVal(_fields_id(s.old.interval) == s.old.interval_fields)),
         ("data-not-written", z3.BoolVal(s.data.writes == s.old.writes)), *frame_clauses(s, s.old.frame, READ_ONLY),
     ]
+    out += kinded(s, [
+        ("frozen-limits=limits-of-the-previous-interval-on-the-data(bool:0,1)", AND(oval(vmin) == lo, oval(vmax) == hi)),
+        ("norm.vmin/vmax=frozen-limits", AND(NOT(onone(fld(o, "_vmin"))), NOT(onone(fld(o, "_vmax"))), oval(fld(o, "_vmin")) == lo, oval(fld(o, "_vmax")) == hi)),
+    ], F_ if s.data.dt == "b" else centered_machine(s.old.interval))
+    return out
 
 
 def sl_modifies(ctx, s):
@@ -884,6 +949,7 @@ def sl_modifies(ctx, s):
         lo, hi = 0.0, 1.0
     else:
         lo, hi = s.interp.call(s.interp.getattr(fld(o, "interval"), "get_limits"), [s.data], {})
+        lo, hi = knum(lo).sanitized(), knum(hi).sanitized()  # (frozen-limits-are-plain-python-numbers)
     o.fields["interval"] = Obj(K("ManualInterval"), dict(vmin=lo, vmax=hi))
     o.fields["_vmin"], o.fields["_vmax"] = lo, hi
 
@@ -908,7 +974,7 @@ def init_setup(ctx):
         # dtype kinds: the body never inspects the dtype itself; _set_limits' contract distinguishes only bool / non-bool,
         # and an integer array is the special case `no NaN/inf, integral values` of the float case
         data=data_arr(ctx, "data", kinds=("f", "b")) if has_data else None, lower_quantile=ctx.fresh("lower_quantile", "real"), upper_quantile=ctx.fresh("upper_quantile", "real"),
-        vmin=lazy_opt(ctx, "vmin"), vmax=lazy_opt(ctx, "vmax"), vcenter=ctx.fresh("vcenter", "real"), half_range=lazy_opt(ctx, "half_range"),
+        vmin=lazy_opt(ctx, "vmin"), vmax=lazy_opt(ctx, "vmax"), vcenter=fresh_numval(ctx, "vcenter"), half_range=lazy_opt(ctx, "half_range"),
         power=ctx.fresh("power", "real"), logarithmic_index=ctx.fresh("logarithmic_index", "real"), asinh_linear_range=ctx.fresh("asinh_linear_range", "real"),
     )
     return s
@@ -968,7 +1034,7 @@ def init_ensures(s):
     if KW(s)["data"] is None:
         out += [("interval-class-by-name", z3.BoolVal(iv.cls is pl.interval.cls)),
                 ("interval-parameters-are-the-configured-ones", z3.BoolVal(iv.cls is pl.interval.cls and all(iv.fields.get(k) is v for k, v in pl.interval.fields.items()))),
-                ("norm.vmin/vmax-are-the-arguments", z3.BoolVal(fld(o, "_vmin") is kw["vmin"] and fld(o, "_vmax") is kw["vmax"]))]
+                ("norm.vmin/vmax-are-the-arguments", AND(*[AND(onone(fld(o, "_" + k)) == onone(kw[k]), implies(NOT(onone(kw[k])), oval(fld(o, "_" + k)) == oval(kw[k]))) for k in ("vmin", "vmax")]))]
     else:
         if KW(s)["data"].dt == "b":
             lo, hi = z3.RealVal(0), z3.RealVal(1)
@@ -977,11 +1043,14 @@ def init_ensures(s):
         if iv.cls is not K("ManualInterval"):
             return out + [("data-given:interval-frozen-to-ManualInterval", F_)]
         out += [("data-given:interval-frozen-to-ManualInterval", T),
-                ("data-given:frozen-limits=limits-of-the-configured-interval-on-the-data(bool:0,1)",
-                 AND(NOT(onone(fld(iv, "vmin"))), NOT(onone(fld(iv, "vmax"))), oval(fld(iv, "vmin")) == lo, oval(fld(iv, "vmax")) == hi)),
-                ("data-given:norm.vmin/vmax=frozen-limits", AND(NOT(onone(fld(o, "_vmin"))), NOT(onone(fld(o, "_vmax"))), oval(fld(o, "_vmin")) == lo, oval(fld(o, "_vmax")) == hi)),
+                *([("data-given:frozen-limits-are-plain-python-numbers", AND(NOT(kind_flags(fld(iv, "vmin"))[0]), NOT(kind_flags(fld(iv, "vmax"))[0])))] if NPI_OPEN else []),
                 ("data-not-written", z3.BoolVal(KW(s)["data"].writes == 0)),
                 ("frame:the-caller's-array(read-only-input)-is-not-written", z3.BoolVal(KW(s)["data"]._pyvc_signature() == s.old.data_sig))]
+        out += kinded(s, [
+            ("data-given:frozen-limits=limits-of-the-configured-interval-on-the-data(bool:0,1)",
+             AND(NOT(onone(fld(iv, "vmin"))), NOT(onone(fld(iv, "vmax"))), oval(fld(iv, "vmin")) == lo, oval(fld(iv, "vmax")) == hi)),
+            ("data-given:norm.vmin/vmax=frozen-limits", AND(NOT(onone(fld(o, "_vmin"))), NOT(onone(fld(o, "_vmax"))), oval(fld(o, "_vmin")) == lo, oval(fld(o, "_vmax")) == hi)),
+        ], F_ if KW(s)["data"].dt == "b" else centered_machine(pl.interval))
     out.append(("clip-disabled-in-matplotlib-base", z3.BoolVal(o.fields.get("_clip") is False)))
     return out
 
@@ -1218,8 +1287,78 @@ def conc_stretch(name):
     return conc
 
 
+def _dec(v):
+    """a limit given as {"np": dtype, "v": value} is the NumPy scalar np.<dtype>(value); anything else is itself"""
+    if isinstance(v, dict) and "np" in v:
+        return np.dtype(v["np"]).type(v["v"])
+    return v
+
+
+def _decd(d):
+    return {k: _dec(v) for k, v in d.items()}
+
+
+def _plain(d):
+    """the same configuration with every NumPy-scalar limit replaced by the Python number it denotes"""
+    return {k: (v["v"] if isinstance(v, dict) and "np" in v else v) for k, v in d.items()}
+
+
+def NP(dtype, v):
+    return dict(np=dtype, v=v)
+
+
+def scalar_limits_overflow(kind, fields, sanitised=False):
+    """Exact prediction: are the limits NumPy integer scalars of one dtype whose difference / vcenter -+ half_range leaves that
+    dtype's range (and are they used as given, i.e. not first turned into Python numbers by matplotlib's vmin/vmax setters)?"""
+    def npi(v):
+        return isinstance(v, dict) and "np" in v and np.dtype(v["np"]).kind in "iu"
+    if kind == "manual":
+        a, b = fields.get("vmin"), fields.get("vmax")
+        if sanitised or not (npi(a) and npi(b) and a["np"] == b["np"]):
+            return False
+        info = np.iinfo(np.dtype(a["np"]))
+        return not (info.min <= b["v"] - a["v"] <= info.max)
+    if kind == "centered":
+        c, h = fields.get("vcenter"), fields.get("half_range")
+        if not (npi(c) and npi(h) and c["np"] == h["np"]):
+            return False
+        info = np.iinfo(np.dtype(c["np"]))
+        return any(not (info.min <= t <= info.max) for t in (c["v"] - h["v"], c["v"] + h["v"], 2 * h["v"]))
+    return False
+
+
+NP_LIMIT_CONFIGS = [
+    ("ManualInterval", dict(vmin=NP("int16", -20000), vmax=NP("int16", 20000)), [-20000.0, -5.0, 0.0, 7.0, 20000.0]),
+    ("ManualInterval", dict(vmin=NP("int8", -100), vmax=NP("int8", 100)), [-100.0, -5.0, 0.0, 7.0, 100.0, 120.0]),
+    ("ManualInterval", dict(vmin=NP("int16", -100), vmax=NP("int16", 100)), [-100.0, -5.0, 0.0, 7.0, 100.0]),
+    ("ManualInterval", dict(vmin=NP("uint8", 10), vmax=NP("uint8", 200)), [5.0, 10.0, 100.0, 200.0, 250.0]),
+    ("ManualInterval", dict(vmin=NP("int64", -20000), vmax=NP("int64", 20000)), [-20000.0, -5.0, 0.0, 7.0, 20000.0]),
+    ("ManualInterval", dict(vmin=NP("float32", -2.5), vmax=NP("float32", 7.5)), [-3.0, -2.5, 0.0, 7.5, 9.0]),
+    ("ManualInterval", dict(vmin=NP("int8", -100), vmax=100.0), [-100.0, 0.0, 100.0]),
+    ("CenteredInterval", dict(vcenter=NP("int8", 100), half_range=NP("int8", 100)), [0.0, 50.0, 100.0, 200.0]),
+    ("CenteredInterval", dict(vcenter=NP("int16", 0), half_range=NP("int16", 20000)), [-20000.0, -5.0, 0.0, 7.0, 20000.0]),
+    ("CenteredInterval", dict(vcenter=NP("int16", 100)), [0.0, 50.0, 100.0, 200.0]),
+]
+
+
+def fam_np_limits_interval(tier="quick", seed=0):
+    """user-supplied limits given as NumPy scalars (narrow / wide, signed / unsigned integers, float32), float and integer data"""
+    for cls, fields, xs in NP_LIMIT_CONFIGS:
+        for dtype in ("float64", "float32", "int32"):
+            yield dict(cls=cls, fields=fields, xs=xs, dtype=dtype, dataset="np-scalar-limits")
+
+
+def fam_np_limits_norm(tier="quick", seed=0):
+    for cls, fields, xs in NP_LIMIT_CONFIGS:
+        itype = {"ManualInterval": "manual", "CenteredInterval": "centered"}[cls]
+        for stretch in (dict(), dict(stretch_type="logarithmic")):
+            for given in (True, False):
+                for dtype in ("float64", "int32"):
+                    yield dict(config=dict(interval_type=itype, **fields, **stretch), xs=xs, dtype=dtype, dataset="np-scalar-limits", data_given=given)
+
+
 def _mk_interval(inp):
-    return K(inp["cls"])(**inp.get("fields", {}))
+    return K(inp["cls"])(**_decd(inp.get("fields", {})))
 
 
 def rt_interval(inp):
@@ -1238,6 +1377,14 @@ def rt_interval(inp):
             ok = fin.size == 0 or any(v is not None and not (0 <= v <= 1) for v in q)
             return dict(violated=not ok, observed=f"get_limits raised {type(e).__name__}: {e}", expected="limits (data has finite entries, quantiles in [0,1])")
         lo, hi = float(lo), float(hi)
+        pf = _plain(inp.get("fields", {}))
+        want = None
+        if inp["cls"] == "CenteredInterval" and pf.get("half_range") is not None:
+            want = (pf.get("vcenter", 0.0) - pf["half_range"], pf.get("vcenter", 0.0) + pf["half_range"])
+        elif inp["cls"] == "ManualInterval" and pf.get("vmin") is not None and pf.get("vmax") is not None:
+            want = (pf["vmin"], pf["vmax"])
+        if want is not None and (lo, hi) != (float(want[0]), float(want[1])):
+            problems.append(f"get_limits returned ({lo}, {hi}), the configured limits are {want}")
         try:
             y = iv(x)
         except Exception as e:
@@ -1319,6 +1466,7 @@ def _datasets_for(dtype):
 
 
 def fam_interval(tier="quick", seed=0):
+    yield from fam_np_limits_interval(tier, seed)
     for dtype in FLOATS + INTS:
         for dname, xs in _datasets_for(dtype):
             for cls, fields in INTERVAL_CONFIGS:
@@ -1387,8 +1535,14 @@ def _still_fails_in_float64(rt, inp):
     return bool(rt(dict(inp, dtype="float64")).get("violated"))
 
 
+def _passes_with_python_limits(rt, inp, key):
+    return not rt(dict(inp, **{key: _plain(inp.get(key, {}))})).get("violated")
+
+
 def klass_dtype(inp, res):
     kind = {"ManualInterval": "manual", "CenteredInterval": "centered", "QuantileInterval": "quantile"}[inp["cls"]]
+    if scalar_limits_overflow(kind, inp.get("fields", {})) and _passes_with_python_limits(rt_interval, inp, "fields"):
+        return "numpy-int-scalar-limits-overflow"
     if predicts_wraparound(kind, inp.get("fields", {}), inp["xs"], inp.get("dtype", "float64")) and not _still_fails_in_float64(rt_interval, inp):
         return "fixed-width-integer-wraparound"
     return "value-level:" + np.dtype(inp.get("dtype", "float64")).kind
@@ -1408,12 +1562,15 @@ def rt_norm(inp):
     problems = []
     with _quiet():
         try:
-            n = CNORM(**cfg, data=x if inp.get("data_given", True) else None)
+            n = CNORM(**_decd(cfg), data=x if inp.get("data_given", True) else None)
             lo, hi = n.interval.get_limits(x)
             out = n(x)
         except Exception as e:
             return dict(violated=True, observed=f"raised {type(e).__name__}: {e}", expected="a masked array in [0,1]")
         lo, hi = float(lo), float(hi)
+        pc = _plain(cfg)
+        if pc.get("interval_type") == "centered" and pc.get("half_range") is not None and (lo, hi) != (float(pc.get("vcenter", 0.0) - pc["half_range"]), float(pc.get("vcenter", 0.0) + pc["half_range"])):
+            problems.append(f"limits ({lo}, {hi}) are not vcenter -+ half_range = ({pc.get('vcenter', 0.0) - pc['half_range']}, {pc.get('vcenter', 0.0) + pc['half_range']})")
         if not np.array_equal(x, x0, equal_nan=True):
             problems.append("input array modified")
         if not isinstance(out, np.ma.MaskedArray):
@@ -1456,6 +1613,7 @@ def rt_norm(inp):
 
 
 def fam_norm(tier="quick", seed=0):
+    yield from fam_np_limits_norm(tier, seed)
     rng = np.random.default_rng(seed + 20)
     for dtype in FLOATS + INTS + ("bool",):
         if dtype == "bool":
@@ -1488,6 +1646,10 @@ def klass_norm(inp, res):
         cfg = dict(CONFIG_DEFAULTS, **PRESET_SPEC.get(inp["preset"], {}))
     kind = cfg.get("interval_type", "quantile")
     fields = {k: cfg[k] for k in ("vmin", "vmax", "vcenter", "half_range") if cfg.get(k) is not None}
+    # (manual limits + data: CustomNormalization freezes the limits through matplotlib's setters -> Python numbers)
+    if scalar_limits_overflow(kind, fields, sanitised=(kind == "manual" and inp.get("data_given", True))) and _passes_with_python_limits(rt_norm, inp, "config"):
+        return "numpy-int-scalar-limits-overflow"
+    fields = _plain(fields)
     if predicts_wraparound(kind, fields, inp["xs"], inp.get("dtype", "float64")) and not _still_fails_in_float64(rt_norm, inp):
         return "fixed-width-integer-wraparound"
     return "value-level:" + np.dtype(inp.get("dtype", "float64")).kind
@@ -1637,18 +1799,41 @@ def rt_zero_d(inp):
             return dict(violated=True, observed=f"raised {type(e).__name__}: {e}", expected="0.5 (0-d array normalised like any other shape)")
 
 
+def _memo(rt):
+    """replaying many failing obligations of one contract scans the same family again and again: evaluate each input once"""
+    import functools
+    import json as _json
+
+    cache = {}
+
+    @functools.wraps(rt)
+    def f(inp):
+        k = _json.dumps(inp, sort_keys=True, default=str)
+        if k not in cache:
+            cache[k] = rt(inp)
+        return cache[k]
+
+    return f
+
+
+rt_interval_m, rt_norm_m, rt_stretch_m, rt_init_m = _memo(rt_interval), _memo(rt_norm), _memo(rt_stretch), _memo(rt_init)
+
 for _n in STRETCH_NAMES:
     for _c in (C_STRETCH_CALL[_n], C_STRETCH_INV[_n]):
-        _c.rt, _c.rt_family, _c.concretize = rt_stretch, (lambda _n=_n: (i for i in fam_stretch() if i["cls"] == _n)), conc_stretch(_n)
+        _c.rt, _c.rt_family, _c.concretize = rt_stretch_m, (lambda _n=_n: (i for i in fam_stretch() if i["cls"] == _n)), conc_stretch(_n)
 for _n in INTERVALS:
-    C_LIMITS[_n].rt, C_LIMITS[_n].rt_family, C_LIMITS[_n].concretize = rt_interval, (lambda _n=_n: (i for i in fam_interval() if i["cls"] == _n and (np.dtype(i["dtype"]).kind == "f" or i["dtype"] == "int64"))), conc_interval(_n)
-_ffam = lambda: (i for i in fam_interval() if np.dtype(i["dtype"]).kind == "f" or i["dtype"] == "int64")  # int64: no wrap-around on these data
-C_BI_CALL.rt, C_BI_CALL.rt_family, C_BI_CALL.concretize = rt_interval, _ffam, conc_base_interval
-C_BI_INV.rt, C_BI_INV.rt_family = rt_interval, _ffam
-_nfam = lambda: (i for i in fam_norm() if np.dtype(i["dtype"]).kind == "f" or i["dtype"] in ("int64", "bool"))
+    C_LIMITS[_n].rt, C_LIMITS[_n].rt_family, C_LIMITS[_n].concretize = rt_interval_m, (lambda _n=_n: (i for i in _ffam() if i["cls"] == _n)), conc_interval(_n)
+_KIND = {"ManualInterval": "manual", "CenteredInterval": "centered", "QuantileInterval": "quantile"}
+# replay families hold only inputs that satisfy the statement on the unchanged tree (no integer wrap-around of data or limits)
+_ffam = lambda: (i for i in fam_interval() if (np.dtype(i["dtype"]).kind == "f" or i["dtype"] in ("int64", "int32"))
+                 and not scalar_limits_overflow(_KIND[i["cls"]], i.get("fields", {})))
+C_BI_CALL.rt, C_BI_CALL.rt_family, C_BI_CALL.concretize = rt_interval_m, _ffam, conc_base_interval
+C_BI_INV.rt, C_BI_INV.rt_family = rt_interval_m, _ffam
+_nfam = lambda: (i for i in fam_norm() if (np.dtype(i["dtype"]).kind == "f" or i["dtype"] in ("int64", "int32", "bool"))
+                 and not ("config" in i and scalar_limits_overflow(i["config"].get("interval_type"), i["config"], sanitised=(i["config"].get("interval_type") == "manual" and i.get("data_given", True)))))
 for _c in (C_CALL, C_CINV, C_SETLIM):
-    _c.rt, _c.rt_family = rt_norm, _nfam
-C_INIT.rt, C_INIT.rt_family = rt_init, fam_init
+    _c.rt, _c.rt_family = rt_norm_m, _nfam
+C_INIT.rt, C_INIT.rt_family = rt_init_m, fam_init
 C_CALL.concretize = conc_norm
 C_RESOLVE.rt, C_RESOLVE.rt_family = rt_resolve, (lambda: iter([{}]))
 
@@ -1732,7 +1917,11 @@ TRUSTED = [
     "np.quantile: ValueError for q outside [0,1], IndexError on empty input, monotone in q, between min and max, Q(0)=min, Q(1)=max; np.ma.masked_invalid masks exactly NaN/inf",
     "A4 real-analysis schemas (pyvc/reals.py): exp/log inverse pair, strictly increasing, exp 0 = 1; sinh/arcsinh inverse pair, strictly increasing, ODD (added for C20); "
     "rpow on [0,1]: range, monotone, fixes 0/1, (x^p)^(1/p) = x",
-    "matplotlib.colors.Normalize: __init__/vmin/vmax store the given limits (numeric value preserved by _sanitize_extrema); callbacks ignored",
+    "matplotlib.colors.Normalize: __init__/vmin/vmax store the given limits as plain Python numbers (_sanitize_extrema: .item() / float(); numeric value preserved); callbacks ignored",
+    "value KIND of user-supplied limits (pyvc/lib/c20_models.py NumVal): Python int / float or NumPy fixed-width integer scalar of an arbitrary (symbolic) dtype; "
+    "+, -, abs of NumPy integer scalars (also with a Python int, NEP 50) are computed in that dtype: the result lies in the dtype's range and is exact when no overflow occurs "
+    "(what happens on overflow is left open); with a float operand the result is an exact float64; float()/.item() are exact; np.min/np.max of an integer array return a scalar of the array's dtype",
+    "np.quantile(..., overwrite_input=True) permutes its argument in place, and a ravel() view writes through to the caller's array (frame clauses)",
     "@dataclass constructors bind fields positionally / by keyword / default and call __post_init__ (generated __init__ has no source)",
     "dynamic dispatch by behavioural subtyping (meta-level): BaseInterval.__call__/inverse verified against the abstract get_limits specification, every override verified against "
     "its own stronger contract; CustomNormalization.__call__/inverse verified against the stretch interface (AnyStretch), every stretch class verified to implement it",
@@ -1750,6 +1939,10 @@ ASSUMPTIONS = [
     "LinearStretch is under contract only as the identity LinearStretch() (slope=1, intercept=0), the one configuration CustomNormalization builds; slope/intercept are not "
     "among the property's stretch parameters. A non-identity LinearStretch cannot both map [0,1] into [0,1] and round-trip: __call__ clips its argument to [0,1] before the affine "
     "map, e.g. LinearStretch(2, 0.1): inverse(0) = -0.05 -> clipped to 0 -> stretch gives 0.1 != 0; LinearStretch(0.5, 0): inverse(1) = 2 -> clipped to 1 -> 0.5 != 1 (noted, not claimed)",
+    "limits given as NumPy scalars: integer scalars of ONE dtype per expression are modelled with machine arithmetic (clauses tagged [numpy-int-scalar-limits]); mixed integer dtypes "
+    "(NumPy promotion) and the overflow of narrow FLOAT scalars (np.float16(-60000)..np.float16(60000): vmax - vmin = inf) are not modelled (A1); float32 limits are in the bounded sweep",
+    "while the [numpy-int-scalar-limits] clauses of BaseInterval.__call__ are open findings, _set_limits / __init__ additionally promise that the frozen limits are plain Python numbers "
+    "(that is what makes CustomNormalization(data=...) correct for NumPy-scalar limits today); the clause is dropped automatically once the baseline records those clauses as proved (NPI_OPEN)",
     "0-d inputs, python lists/scalars as `value`, np.bool_ limits: not modelled deductively (0-d is in the bounded checks)",
 ]
 EXPLANATION = ("VCs generated from the real source of all functions of custom_normalizations.py (6 stretch classes' __call__ and inverse, 3 get_limits, BaseInterval.__call__/inverse, "
